@@ -649,6 +649,53 @@ def coalesce_copies(fn, known_locals):
   return fn
 
 
+def expand_kwargs_dicts(fn, known_locals):
+  """shared = dict(a=x, b=y) / {'a': x, 'b': y};  f(**shared, c=z)  ->
+  f(a=x, b=y, c=z)   for an unknown local that is assigned once, never
+  mutated and only used as **shared"""
+  params = {a.arg for a in ast.walk(fn.args) if isinstance(a, ast.arg)}
+  for owner in ast.walk(fn):
+    for f in ('body', 'orelse', 'finalbody'):
+      block = getattr(owner, f, None)
+      if not (isinstance(block, list) and block and isinstance(
+          block[0], ast.stmt)):
+        continue
+      for i, s in enumerate(list(block)):
+        if not (isinstance(s, ast.Assign) and len(s.targets) == 1 and
+                isinstance(s.targets[0], ast.Name)):
+          continue
+        name = s.targets[0].id
+        if name in known_locals or name in params:
+          continue
+        v = s.value
+        items = None
+        if isinstance(v, ast.Dict) and all(
+            isinstance(k, ast.Constant) and isinstance(k.value, str)
+            for k in v.keys):
+          items = [(k.value, val) for k, val in zip(v.keys, v.values)]
+        elif isinstance(v, ast.Call) and isinstance(
+            v.func, ast.Name) and v.func.id == 'dict' and not v.args and \
+            all(k.arg for k in v.keywords):
+          items = [(k.arg, k.value) for k in v.keywords]
+        if items is None:
+          continue
+        occ = [n for n in ast.walk(fn)
+               if isinstance(n, ast.Name) and n.id == name]
+        stars = [(c, k) for c in ast.walk(fn) if isinstance(c, ast.Call)
+                 for k in c.keywords if k.arg is None and isinstance(
+                     k.value, ast.Name) and k.value.id == name]
+        if len(occ) != len(stars) + 1 or not stars:
+          continue
+        for c, k in stars:
+          idx = c.keywords.index(k)
+          c.keywords[idx:idx + 1] = [
+              ast.keyword(arg=a, value=copy.deepcopy(val))
+              for a, val in items]
+          c.keywords.sort(key=lambda kw: kw.arg or '')
+        block.remove(s)
+  return fn
+
+
 def substitute_new_locals(fn, known_locals):
   """single-assignment locals that the inventory does not know are replaced
   by their defining expression"""
@@ -857,6 +904,55 @@ def split_tuple_assignments(fn):
   return fn
 
 
+def loop_targets(fn):
+  """[[iterable text, target text], ...] of the for loops of fn"""
+  return [[ast.unparse(n.iter), ast.unparse(n.target)]
+          for n in ast.walk(fn) if isinstance(n, ast.For)]
+
+
+def restore_loop_targets(fn, ref_loops, known_locals):
+  """a for loop over the same iterable as a reference loop whose target
+  names were renamed gets the reference names back (the new names must be
+  unknown to the reference, the old ones unused in the function)"""
+  by_iter = {}
+  for it, tg in ref_loops or []:
+    by_iter.setdefault(it, []).append(tg)
+  used = {n.id for n in ast.walk(fn) if isinstance(n, ast.Name)}
+  for loop in [n for n in ast.walk(fn) if isinstance(n, ast.For)]:
+    it = ast.unparse(loop.iter)
+    cands = by_iter.get(it)
+    if not cands or len(set(cands)) != 1:
+      continue
+    cur = ast.unparse(loop.target)
+    if cur == cands[0]:
+      continue
+    try:
+      ref_t = ast.parse(cands[0], mode='eval').body
+    except SyntaxError:
+      continue
+    pairs = []
+
+    def match(a, b):
+      if isinstance(a, ast.Name) and isinstance(b, ast.Name):
+        pairs.append((a.id, b.id))
+        return True
+      if isinstance(a, ast.Tuple) and isinstance(b, ast.Tuple) and len(
+          a.elts) == len(b.elts):
+        return all(match(x, y) for x, y in zip(a.elts, b.elts))
+      return False
+    if not match(loop.target, ref_t):
+      continue
+    ren = {a: b for a, b in pairs if a != b}
+    if not ren or any(a in known_locals for a in ren) or any(
+        b in used for b in ren.values()):
+      continue
+    for n in ast.walk(fn):
+      if isinstance(n, ast.Name) and n.id in ren:
+        n.id = ren[n.id]
+    used = {n.id for n in ast.walk(fn) if isinstance(n, ast.Name)}
+  return fn
+
+
 def flat_form(fn):
   """the statements of a function in normal form, one string per simple
   statement / compound header (docstrings dropped): the unit in which the
@@ -916,7 +1012,9 @@ def normalise_module(modname, tree):
         name_returns(fn, inv[q]['returns'])
       before = local_names(fn)
       if before - known:
+        restore_loop_targets(fn, inv[q].get('loops'), known)
         split_tuple_assignments(fn)
+        expand_kwargs_dicts(fn, known)
         coalesce_copies(fn, known)
         split_versions(fn, known)
         substitute_new_locals(fn, known)
